@@ -225,6 +225,11 @@ def run_pool(sc, V, stats):
         _viol(V, "pool.liveness", "deadlock in ChainPool.advance: %s %r" % (e, dead))
     except rctx.Runaway:
         stats["pool_runaway_history_ended"] += 1
+    except LibRaised as e:
+        if lc.HMC_STEP_FAIL in str(e):
+            stats["hmc_step_exhausted"] += 1  # the documented give-up error, raised inside a pool worker
+        else:
+            raise
     finally:
         c.sim = None
         sim.shutdown_all()
@@ -259,7 +264,7 @@ def run_timed(sc, V, stats):
         for _ in range(sc["pre_steps"]):
             try:
                 lc.op_step(h)
-            except lc.StepExhausted:
+            except (lc.StepExhausted, rctx.Runaway):
                 return c, clock
         for rep in range(sc["repeat"]):
             n0 = h.length()
